@@ -16,9 +16,9 @@ const (
 	public  = "https://www.w3.org/ns/activitystreams#Public"
 )
 
-func actorID(h, n string) string  { return h + "/users/" + n }
-func inboxOf(a string) string     { return a + "/inbox" }
-func outboxOf(a string) string    { return a + "/outbox" }
+func actorID(h, n string) string { return h + "/users/" + n }
+func inboxOf(a string) string    { return a + "/inbox" }
+func outboxOf(a string) string   { return a + "/outbox" }
 func person(id string) jmap {
 	return jmap{"@context": asCtx, "type": "Person", "id": id, "inbox": inboxOf(id), "outbox": outboxOf(id)}
 }
@@ -142,11 +142,19 @@ func randomWrapCfg(r *rng, cfg *config, ty string, fed bool) {
 
 // ---- federated (inbox) activities of every handled type ------------------------------------------------
 
-func genInbox(r *rng, ty string, k int) *scenario {
+func genInbox(r *rng, ty string, k int) *scenario { return genInboxF(r, ty, k, false) }
+
+// genInboxF with focus: the default side effect is what is exercised - the activity is new, its sender is not blocked, it
+// has its object, the default callback is in place (plain or wrapped) for two of three scenarios, and the first target /
+// object runs through every candidate in turn (owned, not owned, not owned but cached locally, not a collection).
+func genInboxF(r *rng, ty string, k int, focus bool) *scenario {
 	w := baseWorld(r)
 	cfg := defaultCfg()
 	cfg.OnFollow = r.intn(3)
 	randomWrapCfg(r, &cfg, ty, true)
+	if focus && k%3 != 0 {
+		cfg.FedOther = nil
+	}
 	alice := actorID(local, "alice")
 	sender := pick(r, remoteActors[:3])
 	id := fmt.Sprintf("%s/activities/%s-%d", remote, ty, k)
@@ -243,18 +251,27 @@ func genInbox(r *rng, ty string, k int) *scenario {
 		for i := 0; i < 1+r.intn(3); i++ {
 			targets = append(targets, pick(r, []string{local + "/cols/1", local + "/cols/2", remote + "/cols/7", remote + "/cols/9", local + "/notes/1"}))
 		}
+		if focus {
+			targets[0] = []string{local + "/cols/1", remote + "/cols/9", local + "/cols/2", remote + "/cols/7", local + "/notes/1"}[k%5]
+			if k%2 == 0 && len(targets) > 1 { // not-owned first, owned later and the other way round
+				targets[0], targets[len(targets)-1] = targets[len(targets)-1], targets[0]
+			}
+		}
 		if r.chance(1, 3) { // the same target named twice
 			targets = append(targets, targets[0])
 		}
 		act["object"] = one(objs)
 		act["target"] = one(targets)
-		if r.chance(1, 10) {
+		if r.chance(1, 10) && !focus {
 			delete(act, "target")
 		}
 	case "Like", "Announce":
 		var objs []interface{}
 		for i := 0; i < nobj; i++ {
 			objs = append(objs, pick(r, []string{local + "/notes/1", local + "/notes/2", local + "/notes/3", remote + "/notes/9"}))
+		}
+		if focus {
+			objs[0] = []string{local + "/notes/1", remote + "/notes/9", local + "/notes/2", local + "/notes/3"}[k%4]
 		}
 		act["object"] = one(objs)
 	case "Undo":
@@ -281,7 +298,7 @@ func genInbox(r *rng, ty string, k int) *scenario {
 	default: // a type without default behaviour (Travel, Listen, ...)
 		act["object"] = note(0)
 	}
-	if r.chance(1, 12) && ty != "Announce" {
+	if r.chance(1, 12) && ty != "Announce" && !focus {
 		delete(act, "object")
 	}
 	// addressing, possibly naming owned collections (inbox forwarding)
@@ -296,10 +313,10 @@ func genInbox(r *rng, ty string, k int) *scenario {
 		cfg.Filter = pick(r, []string{"all", "all", "first", "none"})
 		cfg.MaxForwarding = 1 + r.intn(4)
 	}
-	if r.chance(1, 10) { // duplicate delivery: already in the inbox
+	if r.chance(1, 10) && !focus { // duplicate delivery: already in the inbox
 		w.Inboxes[inboxOf(alice)]["orderedItems"] = id
 	}
-	if r.chance(1, 8) {
+	if r.chance(1, 8) && !focus {
 		cfg.Blocked = []string{sender}
 	}
 	sc := inboxScenario("inbox:"+ty, w, cfg, act)
@@ -679,7 +696,6 @@ func gateScenarios(r *rng, sample int) []*scenario {
 	}
 	return out
 }
-
 
 // every vocabulary type served by the handler, with hidden recipients where the type admits them
 func genGetTypes(r *rng) []*scenario {
